@@ -8,7 +8,7 @@ DECIDED = ("R1 Link::delay returns cmp::min(min_latency + sample, max_latency) w
            "Link::now is written only by Link::new / Link::tick, tick updates it unconditionally and Topology::tick_by ticks every "
            "link with the topology clock; R4 a message matures only when `time <= now`; queue discipline is FIFO (shared C08-R3/R4).")
 NOT_DECIDED = "the +-tick numeric window, the latency distribution, 'every message is delivered on a healthy link' as behaviour."
-DECIDED += "; R5 exhaustive scans: process_deliverables and Topology::tick_by"
+DECIDED += "; R5 exhaustive scans: take_due and Topology::tick_by"
 ASSUMPTIONS = ["std::cmp::min / Duration arithmetic behave as documented"]
 
 LAT = "turmoil::config::Latency"
@@ -178,7 +178,7 @@ def _ops(r):
 def r3(ctx):
     R = "C14-R3"
     ctx.rule(R, "DeliverAfter operand = Add(Link::now, delay(..)); Link::now is written only in Link::new / Link::tick; Link::tick "
-                "writes it from its parameter on every path before process_deliverables; Topology::tick_by calls Link::tick for "
+                "writes it from its parameter on every path before take_due; Topology::tick_by calls Link::tick for "
                 "every element of links.values_mut() with Rt::now of the topology runtime")
     b = ctx.body(R, "turmoil::top::Link::enqueue")
     if b:
@@ -211,8 +211,8 @@ def r3(ctx):
         wr = [bb for bb, i, s in t.all_stmts() if place_last_field(s["p"]) == "turmoil::top::Link::now" and op_base(s["r"].get("o")) is not None
               and any(a.startswith("arg:2:") for a in Slicer(ctx.w).atoms(t, s["r"]["o"]))]
         miss = always_passes(t, wr)
-        pd = [bb for bb, _ in t.calls("turmoil::top::Link::process_deliverables")]
-        order_ok = all(t.dominated_by_any(p, blocks=wr) for p in pd) and bool(pd)
+        pd = [bb for bb, _ in t.calls("turmoil::top::Link::take_due")]
+        order_ok = all(t.dominated_by_any(p, blocks=wr) for p in pd)
         ctx.inst(R, "tick:updates-clock", bool(wr) and not miss and order_ok, t.span,
                  "Link::tick stores the new time on every path, then matures messages" if wr and not miss and order_ok else
                  "Link::tick has a path that does not advance the link clock (or matures messages against the old clock): an idle link's clock goes stale and later sends are stamped in the past")
